@@ -33,7 +33,7 @@ ASSUMPTIONS = [
 SIGNATURES = {}
 
 FEAT = gen.Feat(inherit=True, items=True, uncached=False, objrefs=False, shadow=False, max_top=2, max_child=1,
-                max_cells=3, max_rank=4, depth=2, tick=True)
+                max_cells=3, max_rank=4, depth=2, tick=True, partial=True)
 EDITS = ["set_ref", "set_ref", "set_ref", "shadow_ref", "del_ref", "set_mref", "set_mref", "set_cells_formula",
          "override", "new_cells", "del_cells", "rename_cells", "add_bases", "remove_bases"]
 
